@@ -358,7 +358,15 @@ struct patt_list {
 	struct uftrace_pattern patt;
 	char *module;
 	bool positive;
+	/* no "@module" given: the pattern is for the main executable only */
+	bool exact_module;
 };
+
+/* length to compare a module name with: a given "@module" is a prefix, the default one is not */
+static size_t module_cmp_len(struct patt_list *pl)
+{
+	return strlen(pl->module) + (pl->exact_module ? 1 : 0);
+}
 
 static bool match_pattern_module(char *pathname)
 {
@@ -368,12 +376,12 @@ static bool match_pattern_module(char *pathname)
 	char *soname = get_soname(pathname);
 
 	list_for_each_entry(pl, &patterns, list) {
-		if (!strncmp(libname, pl->module, strlen(pl->module))) {
+		if (!strncmp(libname, pl->module, module_cmp_len(pl))) {
 			ret = true;
 			break;
 		}
 
-		if (soname && !strncmp(soname, pl->module, strlen(pl->module))) {
+		if (soname && !strncmp(soname, pl->module, module_cmp_len(pl))) {
 			ret = true;
 			break;
 		}
@@ -397,7 +405,7 @@ static int match_pattern_list(struct uftrace_mmap *map, char *soname, char *sym_
 	const char *libname = uftrace_basename(map->libname);
 
 	list_for_each_entry(pl, &patterns, list) {
-		int len = strlen(pl->module);
+		int len = module_cmp_len(pl);
 
 		if (strncmp(libname, pl->module, len) &&
 		    (!soname || strncmp(soname, pl->module, len)))
@@ -433,6 +441,7 @@ static void parse_pattern_list(char *patch_funcs, const char *def_mod,
 		delim = strchr(name, '@');
 		if (delim == NULL) {
 			pl->module = xstrdup(def_mod);
+			pl->exact_module = true;
 		}
 		else {
 			*delim = '\0';
